@@ -3,13 +3,16 @@
 (* (driver harness/drivers/pipeline).  One event per plan step, recorded      *)
 (* after all repository goroutines were quiescent:                            *)
 (*   feed  s pack          - the pack READ from source stream s               *)
-(*   step  g from to       - goroutine g ran from one yield point to the next *)
-(*   start / addpart / stop / release                                        *)
+(*   step / run  g         - goroutine g ran from one yield point to the next *)
+(*   start / addpart / stop / release / drain                                *)
 (* each with  out  (packs that arrived on a downstream output channel q, in   *)
 (* arrival order), evs (API events) and regs (register / deregister calls).   *)
-(* The acceptor keeps the read history and the per-channel output history     *)
-(* and requires, after every event, the invariants of the property selected   *)
-(* by env PROP (C01, C02, C03, C04) - exactly what the statement demands.     *)
+(* The acceptor keeps the read history and the global output history and      *)
+(* requires the invariants of the property selected by env PROP              *)
+(* (C01, C02, C03, C04) - exactly what the statement demands.                 *)
+(* All invariants are prefix-closed over the growing histories, so they are   *)
+(* evaluated once on the complete trace (and after every event in the         *)
+(* diagnosis run, env TRACE_DIAG, to locate the rejecting event).             *)
 EXTENDS Integers, Sequences, FiniteSets, TLC, Json, IOUtils, SequencesExt, Functions
 
 Traces == ndJsonDeserialize(IOEnv.TRACE_FILE)
@@ -19,30 +22,97 @@ P(x) == Prop = x \/ Prop = "ALL"
 KFOn(n) == ("KF_" \o n) \in DOMAIN IOEnv
 
 VARIABLES tr, l,
-          outs,     \* sequence of emitted packs over all channels, arrival order; each with q and cs (compute sequence number)
+          outs,     \* sequence of emitted packs over all channels, global arrival order; each with q and cs (compute sequence number)
           reads,    \* sequence of [s, pack] read so far
-          srcts,    \* message id -> source timestamp
+          srcmsg,   \* message id -> the source message record
           cnt,      \* number of compute steps so far
           pend,     \* g -> compute sequence number of the pack g holds at "presend"
-          evs,      \* API events so far
-          started,  \* collections for which StartReadCollection returned
+          evs,      \* API events so far, each with field at = number of packs emitted before it
+          drained,  \* the final drain event was consumed
           kfused
 
-vars == <<tr, l, outs, reads, srcts, cnt, pend, evs, started, kfused>>
+vars == <<tr, l, outs, reads, srcmsg, cnt, pend, evs, drained, kfused>>
 
 Params == Traces[tr].params
 Floor == IF "floor" \in DOMAIN Params THEN Params.floor ELSE 0
+Catalog == Params.catalog
+TaskID == "task1"
 
 TInit == /\ tr \in 1..Len(Traces) /\ l = 1
-         /\ outs = <<>> /\ reads = <<>> /\ srcts = <<>> /\ cnt = 0 /\ pend = <<>> /\ evs = <<>>
-         /\ started = {} /\ kfused = {}
+         /\ outs = <<>> /\ reads = <<>> /\ srcmsg = <<>> /\ cnt = 0 /\ pend = <<>> /\ evs = <<>>
+         /\ drained = FALSE /\ kfused = {}
 
 IsTick(m) == m.k = "tick"
 NonTick(p) == SelectSeq(p.msgs, LAMBDA m : ~IsTick(m))
 Tick(p) == Last(p.msgs).ts
 OnQ(seq, q) == SelectSeq(seq, LAMBDA p : p.q = q)
-Qs(seq) == {seq[i].q : i \in 1..Len(seq)}
-StreamOf(p) == <<p.coll, p.pch>>     \* label: source collection id + source pchannel = one source shard
+QsOf(seq) == {seq[i].q : i \in 1..Len(seq)}
+
+(* ------------------------------ catalog ---------------------------------- *)
+CollIdx(id) == CHOOSE i \in 1..Len(Catalog) : Catalog[i].id = id
+KnownColl(id) == \E i \in 1..Len(Catalog) : Catalog[i].id = id
+CollOfPack(p) == Catalog[CollIdx(p.coll)]
+LabelOK(p) == /\ KnownColl(p.coll) /\ p.pch \in DOMAIN CollOfPack(p).bypch
+              /\ p.cname = CollOfPack(p).name /\ p.task = TaskID
+StreamOfPack(p) == CollOfPack(p).bypch[p.pch]          \* source vchannel named by the pack's label
+ReadsOf(s) == SelectSeq(reads, LAMBDA r : r.s = s)
+PackNo(s, id) == CHOOSE i \in 1..Len(ReadsOf(s)) : ReadsOf(s)[i].pack.id = id
+WasRead(s, id) == \E i \in 1..Len(ReadsOf(s)) : ReadsOf(s)[i].pack.id = id
+PackId(p) == p.epos[1].id
+
+(* ------------------------------ C01 -------------------------------------- *)
+DataKind(k) == k \in {"ins", "del", "dropp", "dropc"}
+DropBoth(c, m) == "dropboth" \in DOMAIN c /\ m.k \in {"ins", "del", "dropp"} /\ \E i \in 1..Len(c.dropboth) : c.dropboth[i] = m.p
+Expected(c, pack) == SelectSeq(pack.msgs, LAMBDA m : DataKind(m.k) /\ ~DropBoth(c, m))
+Earlier(a, b) == a.ts < b.ts \/ (a.ts = b.ts /\ a.k = "del" /\ b.k # "del")
+PackExact(p) ==
+    LET s == StreamOfPack(p)  c == CollOfPack(p)  d == NonTick(p) IN
+    /\ WasRead(s, PackId(p))
+    /\ LET rp == ReadsOf(s)[PackNo(s, PackId(p))].pack
+           ex == Expected(c, rp) IN
+       /\ Len(d) = Len(ex)
+       /\ {d[i].pos.id : i \in 1..Len(d)} = {ex[i].mid : i \in 1..Len(ex)}        \* exactly the read ones, none twice
+       /\ \A i \in 1..Len(d) : LET m == srcmsg[d[i].pos.id] IN                      \* payload and kind of the source
+             d[i].k = m.k /\ d[i].dg = m.dg /\ (m.k \in {"ins", "del", "dropp"} => d[i].pname = m.p)
+       /\ \A i, j \in 1..Len(d) : i < j => ~Earlier(srcmsg[d[j].pos.id], srcmsg[d[i].pos.id])   \* source-time order, deletes first
+Misrouted(p) == Len(NonTick(p)) = 0 /\ p.q # CollOfPack(p).pairq[StreamOfPack(p)]
+\* known finding C01_tickonly_forward_order: a tick-only pack of a forwarded stream is emitted on the reading
+\* handler's channel, outside the stream's FIFO; with the finding enabled such packs are exempt from the order rule
+Exempt(o, i, j) == KFOn("C01_tickonly_forward_order") /\ (Misrouted(o[i]) \/ Misrouted(o[j]))
+ReadOrder(o, rd, strict) ==
+    \A i, j \in 1..Len(o) : (i < j /\ StreamOfPack(o[i]) = StreamOfPack(o[j])) =>
+        \/ LET s == StreamOfPack(o[i])
+               rs == SelectSeq(rd, LAMBDA r : r.s = s)
+               no(id) == CHOOSE x \in 1..Len(rs) : rs[x].pack.id = id IN
+           no(PackId(o[i])) < no(PackId(o[j]))
+        \/ (~strict /\ Exempt(o, i, j))
+NoError == \A i \in 1..Len(evs) : evs[i].type # "ReplicateError"
+Complete ==
+    (drained /\ NoError) =>
+      \A r \in 1..Len(reads) :
+         LET s == reads[r].s  pk == reads[r].pack
+             c == Catalog[CHOOSE i \in 1..Len(Catalog) : s \in DOMAIN Catalog[i].pairs] IN
+         Len(Expected(c, pk)) > 0 => \E i \in 1..Len(outs) : LabelOK(outs[i]) /\ StreamOfPack(outs[i]) = s /\ PackId(outs[i]) = pk.id
+C01Inv == /\ \A i \in 1..Len(outs) : LabelOK(outs[i]) /\ PackExact(outs[i])
+          /\ ReadOrder(outs, reads, FALSE)
+          /\ Complete
+
+(* ------------------------------ C02 -------------------------------------- *)
+Routed(p) ==
+    LET d == NonTick(p) IN
+    Len(d) > 0 =>
+      /\ LabelOK(p)
+      /\ LET s == StreamOfPack(p)  c == CollOfPack(p)  tv == c.pairs[s] IN
+         /\ p.q = c.pairq[s]
+         /\ \A i \in 1..Len(p.spos) : p.spos[i].ch = p.q /\ p.spos[i].id = PackId(p)
+         /\ \A i \in 1..Len(p.epos) : p.epos[i].ch = p.q
+         /\ WasRead(s, PackId(p))
+         /\ \A i \in 1..Len(d) :
+               /\ d[i].coll = c.tgt_id
+               /\ d[i].pos.ch = tv /\ d[i].pos.id \in DOMAIN srcmsg
+               /\ (d[i].k \in {"ins", "del"} => d[i].shard = tv)
+               /\ ((d[i].k \in {"ins", "dropp"} \/ (d[i].k = "del" /\ d[i].pname # "")) => d[i].part = c.parts[d[i].pname][2])
+C02Inv == \A i \in 1..Len(outs) : Routed(outs[i])
 
 (* ------------------------------ C03 -------------------------------------- *)
 EndsWithTick(p) == Len(p.msgs) > 0 /\ IsTick(Last(p.msgs))
@@ -58,48 +128,51 @@ ChannelOK(sq) ==
     /\ \A i \in 1..Len(sq)-1 : Tick(sq[i]) <= Tick(sq[i+1])
     /\ \A i, j \in 1..Len(sq) : i < j => \A m \in 1..Len(NonTick(sq[j])) : NonTick(sq[j])[m].ts > Tick(sq[i])
     /\ \A i \in 1..Len(sq) : \A m \in 1..Len(NonTick(sq[i])) : NonTick(sq[i])[m].ts > Floor
-\* messages of one source shard keep their relative time order
+\* messages of one source shard keep their relative time order (earlier stays earlier, equal stays equal)
 OrderKept(sq) ==
-    \A i, j \in 1..Len(sq) : StreamOf(sq[i]) = StreamOf(sq[j]) =>
+    \A i, j \in 1..Len(sq) : (sq[i].coll = sq[j].coll /\ sq[i].pch = sq[j].pch) =>
        \A m \in 1..Len(NonTick(sq[i])), n \in 1..Len(NonTick(sq[j])) :
           LET a == NonTick(sq[i])[m]  b == NonTick(sq[j])[n] IN
-          (a.pos.id \in DOMAIN srcts /\ b.pos.id \in DOMAIN srcts) =>
-             /\ (srcts[a.pos.id] < srcts[b.pos.id] => a.ts < b.ts)
-             /\ (srcts[a.pos.id] = srcts[b.pos.id] => a.ts = b.ts)
+          (a.pos.id \in DOMAIN srcmsg /\ b.pos.id \in DOMAIN srcmsg) =>
+             /\ (srcmsg[a.pos.id].ts < srcmsg[b.pos.id].ts => a.ts < b.ts)
+             /\ (srcmsg[a.pos.id].ts = srcmsg[b.pos.id].ts => a.ts = b.ts)
 ByCompute(sq) == SortSeq(sq, LAMBDA a, b : a.cs < b.cs)
-\* known finding C03_enqueue_race: packs computed under the channel lock in one order but enqueued in another;
+\* known finding C03_enqueue_race: packs stamped under the channel lock in one order but enqueued in another;
 \* with the finding enabled the channel contract is demanded of the compute order instead of the arrival order
 C03Seq(sq) == IF KFOn("C03_enqueue_race") THEN ByCompute(sq) ELSE sq
-C03Inv(o) == \A q \in Qs(o) : ChannelOK(C03Seq(OnQ(o, q))) /\ OrderKept(OnQ(o, q))
+C03Inv == \A q \in QsOf(outs) : ChannelOK(C03Seq(OnQ(outs, q))) /\ OrderKept(OnQ(outs, q))
 
 (* ------------------------------ step ------------------------------------- *)
-Ev == Traces[tr].events[l]
+Inv == /\ (P("C01") => C01Inv)
+       /\ (P("C02") => C02Inv)
+       /\ (P("C03") => C03Inv)
 
-SrcTsOf(e, k) == LET i == CHOOSE j \in 1..Len(e.pack.msgs) : e.pack.msgs[j].mid = k IN e.pack.msgs[i].ts
+MidsOf(e) == {e.pack.msgs[i].mid : i \in 1..Len(e.pack.msgs)}
+MsgOf(e, k) == e.pack.msgs[CHOOSE j \in 1..Len(e.pack.msgs) : e.pack.msgs[j].mid = k]
 
 TStep ==
     /\ l <= Len(Traces[tr].events)
-    /\ LET e == Ev IN
+    /\ LET e == Traces[tr].events[l] IN
        /\ e.op # "machinery"
        /\ IF e.op = "feed" /\ e.res = "ok"
             THEN /\ reads' = Append(reads, [s |-> e.s, pack |-> e.pack])
-                 /\ srcts' = [k \in DOMAIN srcts \cup {e.pack.msgs[i].mid : i \in 1..Len(e.pack.msgs)} |->
-                                 IF k \in DOMAIN srcts THEN srcts[k] ELSE SrcTsOf(e, k)]
-            ELSE UNCHANGED <<reads, srcts>>
+                 /\ srcmsg' = [k \in DOMAIN srcmsg \cup MidsOf(e) |-> IF k \in DOMAIN srcmsg THEN srcmsg[k] ELSE MsgOf(e, k)]
+            ELSE UNCHANGED <<reads, srcmsg>>
        /\ IF e.op = "step" /\ e.from = "prelock" /\ e.to = "presend"
             THEN /\ cnt' = cnt + 1
                  /\ pend' = [g \in DOMAIN pend \cup {e.g} |-> IF g = e.g THEN cnt + 1 ELSE pend[g]]
             ELSE UNCHANGED <<cnt, pend>>
        /\ LET csOf == IF e.op = "step" /\ e.g \in DOMAIN pend THEN pend[e.g] ELSE 0 IN
           outs' = outs \o [i \in 1..Len(e.out) |-> e.out[i] @@ [cs |-> csOf]]
-       /\ evs' = evs \o e.evs
-       /\ started' = IF e.op = "start" /\ ~e.err THEN started \cup {e.c} ELSE started
+       /\ evs' = evs \o [i \in 1..Len(e.evs) |-> e.evs[i] @@ [at |-> Len(outs)]]
+       /\ drained' = (drained \/ e.op = "drain")
     /\ l' = l + 1 /\ tr' = tr
-    \* every invariant is prefix-closed (outs only grows), so it is evaluated on the complete history once;
-    \* the diagnosis run (TRACE_DIAG) evaluates it after every event to locate the rejecting step
-    /\ ((l = Len(Traces[tr].events) \/ Diag) => (P("C03") => C03Inv(outs')))
-    /\ kfused' = IF KFOn("C03_enqueue_race") /\ \E q \in Qs(outs') : ByCompute(OnQ(outs', q)) # OnQ(outs', q)
-                   THEN kfused \cup {"C03_enqueue_race"} ELSE kfused
+    /\ ((l = Len(Traces[tr].events) \/ Diag) => Inv')
+    /\ kfused' = kfused
+         \cup (IF KFOn("C03_enqueue_race") /\ P("C03") /\ \E q \in QsOf(outs') : ByCompute(OnQ(outs', q)) # OnQ(outs', q)
+                 THEN {"C03_enqueue_race"} ELSE {})
+         \cup (IF KFOn("C01_tickonly_forward_order") /\ P("C01") /\ l = Len(Traces[tr].events) /\ ~ReadOrder(outs', reads', TRUE)
+                 THEN {"C01_tickonly_forward_order"} ELSE {})
     /\ (Diag => PrintT("AT " \o ToString(Traces[tr].plan) \o " " \o ToString(l)))
     /\ (l = Len(Traces[tr].events) =>
           /\ PrintT("ACC " \o Traces[tr].plan)
